@@ -32,8 +32,10 @@ def jOut : Session.Out → Json
   | .err e => Json.mkObj [("err", jErr e)]
   | .unit => Json.mkObj [("unit", Json.null)]
 
-def env (hs : List OpsElim.Hint) (b : Bool) : Session.Env :=
-  { P := OpsAlg.prims hs [] b, O := theOracle, tie := fun _ => b, tac := PolyAlg.realTac theOracle b (OpsElim.hintFn hs []) }
+def envO (O : Oracle) (hs : List OpsElim.Hint) (b : Bool) : Session.Env :=
+  { P := OpsAlg.primsO O hs [] b, O := O, tie := fun _ => b, tac := PolyAlg.realTac O b (OpsElim.hintFn hs []) }
+
+def env (hs : List OpsElim.Hint) (b : Bool) : Session.Env := envO theOracle hs b
 
 def handleSession (op : String) (j : Json) : Option (Except String Json) :=
   match op with
@@ -43,7 +45,10 @@ def handleSession (op : String) (j : Json) : Option (Except String Json) :=
     let hs ← OpsElim.getHints j
     let r1 := Session.run (env hs true) pool ops
     let r2 := Session.run (env hs false) pool ops
-    pure (Json.mkObj [("outs", Json.arr (r1.2.map jOut).toArray), ("alt", Json.arr (r2.2.map jOut).toArray)])
+    let n1 := Session.run (envO (oracleShift (-nearD)) hs true) pool ops
+    let n2 := Session.run (envO (oracleShift nearD) hs false) pool ops
+    pure (Json.mkObj [("outs", Json.arr (r1.2.map jOut).toArray), ("alt", Json.arr (r2.2.map jOut).toArray),
+                      ("near", Json.arr #[Json.arr (n1.2.map jOut).toArray, Json.arr (n2.2.map jOut).toArray])])
   | _ => none
 
 end OpsSession
